@@ -410,6 +410,14 @@ class World(object):
         tid, route = t["id"], t["route"]
         vals = dict((k, v) for k, v in t["ctx"].items() if not k.startswith("__"))
         L = self.ledger
+        live = L.live_exec(tid, route)
+        if live is not None and live.items is None and L.reruns:
+            # after a rerun the engine may offer a task both as work that was still due and as a
+            # successor of the re-executed task; two concurrent executions of one (task, route)
+            # cannot be told apart by the conductor, so the history stops being meaningful
+            self.bump("aborted_duplicate_offer_after_rerun")
+            raise Abort("duplicate offer of %s@%s after a rerun" % (tid, route))
+        x = L.on_offer(tid, route, vals, t.get("delay"), st_before)
         # -- offers in statuses that forbid them
         if st_before in ("pausing", "paused"):
             self.report("C09", "no_offer_while_paused", "task %s offered while workflow is %s" % (tid, st_before))
@@ -422,14 +430,6 @@ class World(object):
             if not (self.terminal_at_offer == "failed" and (tid, route) in self.cleanup_entitled()):
                 self.report("C04", "no_offers_after_terminal", "task %s@%s offered after the workflow became %s"
                             % (tid, route, self.terminal_at_offer))
-        live = L.live_exec(tid, route)
-        if live is not None and live.items is None and L.reruns:
-            # after a rerun the engine may offer a task both as work that was still due and as a
-            # successor of the re-executed task; two concurrent executions of one (task, route)
-            # cannot be told apart by the conductor, so the history stops being meaningful
-            self.bump("aborted_duplicate_offer_after_rerun")
-            raise Abort("duplicate offer of %s@%s after a rerun" % (tid, route))
-        x = L.on_offer(tid, route, vals, t.get("delay"), st_before)
         new_exec = x is not live
         if self.accepted_rerun and new_exec and x.kind == "unjustified":
             pass
